@@ -348,8 +348,29 @@ func terminationTable(p *Program, pkg *packages.Package, r *Reporter) {
 					}
 				}
 			}
-			// and nothing else stands between the two tests and the report: the report's block is the direct target
-			good = typed && falls && len(report.Block().Preds) == 1
+			// and nothing else stands between the two tests and the report: the report's block is the direct target of
+			// the termination test, whose block is the direct target of the result-type test
+			direct := false
+			if len(report.Block().Preds) == 1 {
+				a := report.Block().Preds[0]
+				if ifa, ok := a.Instrs[len(a.Instrs)-1].(*ssa.If); ok && len(a.Preds) == 1 {
+					isTerm := false
+					switch cnd := ifa.Cond.(type) {
+					case *ssa.Call:
+						isTerm = cnd.Call.StaticCallee() != nil && cnd.Call.StaticCallee().Name() == "alwaysTerminates" && a.Succs[1] == report.Block()
+					case *ssa.UnOp:
+						c2, ok := cnd.X.(*ssa.Call)
+						isTerm = ok && cnd.Op == token.NOT && c2.Call.StaticCallee() != nil && c2.Call.StaticCallee().Name() == "alwaysTerminates" && a.Succs[0] == report.Block()
+					}
+					t := a.Preds[0]
+					if ift, ok := t.Instrs[len(t.Instrs)-1].(*ssa.If); ok && isTerm {
+						if bo, ok := ift.Cond.(*ssa.BinOp); ok && bo.Op == token.NEQ && (loadsField(bo.X, "ReturnType") || loadsField(bo.Y, "ReturnType")) && t.Succs[0] == a {
+							direct = true
+						}
+					}
+				}
+			}
+			good = typed && falls && direct
 		}
 		r.Check(good, fd.QName()+"#missing-return", p.Rel(fd.Decl.Pos()), "a function with a result type whose body does not always terminate is reported", "parseFunc does not report `missing return` exactly when the function has a result type and its body does not always terminate: such a function returns no value at run time, which the evaluator hands on as a value of no type")
 	} else {
